@@ -233,7 +233,11 @@ def run(pid, tier, seed, rundir, model_run):
                 if kill_at == ev:
                     servers[c].kill(); servers[c].p.wait()
                     killed.add(c)
+                    # the op the killed server was working on may or may not have taken effect (its earlier pieces may already
+                    # have carried the whole content): it is a "maybe" for the linearizability check, also when it was begun earlier
                     opres.setdefault((c, oi), {"start": ev, "end": None, "reply": None, "killed": True})
+                    if opres[(c, oi)]["reply"] is None:
+                        opres[(c, oi)]["killed"] = True
                     count("kills")
                 else:
                     op = clients[c][oi]
